@@ -1,4 +1,5 @@
 import Morlock.Model.Fen
+import Morlock.Proofs.FenCanon
 /-!
 # C19 — textual input is handled totally
 
@@ -8,9 +9,14 @@ is no `panic`, `get!` or partial definition on their paths, so "never crashes" h
 by construction *provided* the indices the Go code uses stay in range. That proviso is the theorem
 below: every square the placement loop hands to `NewPosition` is `< 64` and strictly below every
 square placed before it (so `NewPosition`'s arrays are indexed in range and no square is placed twice).
+
+On top of that: `decoded_wellformed` — whatever **any** string decodes to is a well-formed position
+(all redundant views agree with one mailbox board, rights among the four bits, target on the board,
+clocks in `0 … MaxInt64`), and `accepted_roundtrip` — it re-encodes to a FEN that decodes to the very
+same value.
 -/
 namespace Morlock.Props.C19
-open Morlock Morlock.Model Morlock.Model.Fen
+open Morlock Morlock.Model Morlock.Model.Fen Morlock.Proofs Morlock.Proofs.Fen
 
 /-- Squares in placement order are strictly decreasing and below the bound `hi`. -/
 def Decreasing : Int → List (Nat × Color × Piece) → Prop
@@ -71,5 +77,69 @@ theorem overflow_witness_rejected :
     decode ("8/8/8/8/8/8/8/8P" ++ String.ofList (List.replicate 28 '9') ++ "3 w - - 0 1").toList = none := by decide
 
 example : (decode "8/8/8/8/8/8/8/4K2k w - - 0 1".toList).isSome = true := by decide
+
+/-! ## Accepted input is well-formed -/
+
+/-- `Decreasing 63` placements are on the board. -/
+theorem decreasing_valid {l : List (Nat × Color × Piece)} (h : Decreasing 63 l) : ∀ e ∈ l, e.1 < 64 := by
+  intro e he
+  have := decreasing_lt 63 l h e he
+  omega
+
+/-- **C19 `decoded_wellformed`.** For *every* string `s`: if `Decode` accepts `s`, the position it
+    returns has all its redundant views (occupancy, colour sets, piece sets, the three rotated
+    occupancies) in agreement with one mailbox board (`Rep`, nothing outside the 64 squares, no
+    `NoPiece` entries), its castling rights are among the four bits, its en-passant target is a
+    square, and both clocks are in `0 … MaxInt64`. -/
+theorem decoded_wellformed {s : List Char} {d : Decoded} (h : decode s = some d) :
+    (∃ b, Rep d.pos b) ∧ d.pos.castling < 16 ∧ d.pos.enpassant < 64 ∧
+      (0 ≤ d.noprogress ∧ d.noprogress ≤ 9223372036854775807) ∧
+      (0 ≤ d.fullmoves ∧ d.fullmoves ≤ 9223372036854775807) := by
+  obtain ⟨p0, p1, p2, p3, p4, p5, pl, cr, ep, _, h0, _, h2, h3, h4, h4', h5, h5', h6⟩ := decode_inv h
+  -- the squares are in range by `placements_in_range`; the pieces are real by `placements_valid`
+  have hrange := decreasing_valid (placements_in_range p0 (-1) pl h0)
+  have hv : ValidPlacements pl := fun x hx => ⟨hrange x hx, ((placements_valid h0).1 x hx).2⟩
+  obtain ⟨hr, hc, he⟩ := newPosition_rep hv h6
+  exact ⟨⟨_, hr⟩, by rw [hc]; exact parseCastling_lt h2, by rw [he]; exact epField_lt h3,
+    ⟨h4', (atoi_range h4).2⟩, ⟨h5', (atoi_range h5).2⟩⟩
+
+/-- The board the decoded position represents is the one `Square` reads back. -/
+theorem decoded_rep_square {s : List Char} {d : Decoded} (h : decode s = some d) : Rep d.pos d.pos.square := by
+  obtain ⟨⟨b, hb⟩, _⟩ := decoded_wellformed h
+  rw [← hb.board_eq]; exact hb
+
+/-- **C19 `accepted_roundtrip`.** Whatever `Decode` accepts re-encodes to a FEN that decodes to the
+    same value (position with all views, side, clocks): accepted input is never "half-parsed". -/
+theorem accepted_roundtrip {s : List Char} {d : Decoded} (h : decode s = some d) :
+    decode (encode d.pos d.turn d.noprogress d.fullmoves).toList = some d := by
+  obtain ⟨⟨b, hb⟩, hc, he, ⟨n0, n1⟩, ⟨f0, f1⟩⟩ := decoded_wellformed h
+  have e1 : ((d.noprogress.toNat : Nat) : Int) = d.noprogress := Int.toNat_of_nonneg n0
+  have e2 : ((d.fullmoves.toNat : Nat) : Int) = d.fullmoves := Int.toNat_of_nonneg f0
+  have := decode_encode_of_rep hb hc he d.turn d.noprogress.toNat d.fullmoves.toNat (by omega) (by omega)
+  rw [e1, e2] at this
+  exact this
+
+/-- Whatever `Decode` accepts re-encodes to a line of the standard grammar (`Canonical`): one round
+    trip normalises every accepted spelling (upper-case side, repeated or unordered rights, signs,
+    leading zeros, surrounding blanks, missing or misplaced `/` as long as 64 squares are described). -/
+theorem accepted_normalised {s : List Char} {d : Decoded} (h : decode s = some d) :
+    Canonical (encode d.pos d.turn d.noprogress d.fullmoves).toList := by
+  obtain ⟨⟨b, hb⟩, hc, he, ⟨n0, _⟩, ⟨f0, _⟩⟩ := decoded_wellformed h
+  have := encode_canonical hb hc he d.turn d.noprogress.toNat d.fullmoves.toNat
+  rwa [Int.toNat_of_nonneg n0, Int.toNat_of_nonneg f0] at this
+
+/-- A non-canonical but accepted line (upper-case side, repeated rights, sign and leading zeros on
+    the clocks, surrounding blanks): well-formed, and normalised by one round trip. -/
+example : ∃ d, decode "  4k3/8/8/8/8/8/8/R3K2R W QKQ - +007 012 ".toList = some d ∧
+    (∃ b, Rep d.pos b) ∧ encode d.pos d.turn d.noprogress d.fullmoves = "4k3/8/8/8/8/8/8/R3K2R w KQ - 7 12" ∧
+    decode "4k3/8/8/8/8/8/8/R3K2R w KQ - 7 12".toList = some d := by
+  have hs : (decode "  4k3/8/8/8/8/8/8/R3K2R W QKQ - +007 012 ".toList).isSome = true := by decide +kernel
+  obtain ⟨d, hd⟩ := Option.isSome_iff_exists.mp hs
+  have he : (decode "  4k3/8/8/8/8/8/8/R3K2R W QKQ - +007 012 ".toList).map
+      (fun d => encode d.pos d.turn d.noprogress d.fullmoves) = some "4k3/8/8/8/8/8/8/R3K2R w KQ - 7 12" := by
+    decide +kernel
+  rw [hd] at he
+  simp only [Option.map_some, Option.some.injEq] at he
+  exact ⟨d, hd, (decoded_wellformed hd).1, he, he ▸ accepted_roundtrip hd⟩
 
 end Morlock.Props.C19
